@@ -130,6 +130,37 @@ pub struct RLib {
     pub cells: Vec<RCell>,
     pub listing: Vec<usize>,
 }
+/// Class labels for evidence: which parts of the domain a generated raw library exercises.
+pub fn classify(m: &RLib, ctx: &mut crate::engine::Ctx) {
+    let shapes = || m.cells.iter().flat_map(|c| c.shapes.iter());
+    let abs_geoms = || m.cells.iter().filter_map(|c| c.abs.as_ref()).flat_map(|a| a.ports.iter().flat_map(|p| p.shapes.iter().flat_map(|s| s.1.iter())).chain(a.blockages.iter().flat_map(|b| b.1.iter())));
+    let closed = |g: &RGeom| matches!(g, RGeom::Poly(v) if v.len() > 3 && v.first() == v.last());
+    if shapes().any(|s| closed(&s.geom)) || abs_geoms().any(closed) || m.cells.iter().any(|c| c.abs.as_ref().map(|a| a.outline.len() > 4).unwrap_or(false)) {
+        ctx.label("polygon or outline repeating its first vertex");
+    }
+    if shapes().any(|s| matches!(s.geom, RGeom::Rect(a, b) if (a.0 < b.0) != (a.1 < b.1))) {
+        ctx.label("rectangle given by its upper-left / lower-right corners");
+    }
+    if shapes().any(|s| matches!(s.geom, RGeom::Poly(..)) && !s.geom.is_rectilinear()) {
+        ctx.label("non-rectilinear polygon");
+    }
+    if m.cells.iter().any(|c| c.has_layout && c.abs.is_some()) {
+        ctx.label("cell with both a layout and an abstract view");
+    }
+    if m.cells.iter().any(|c| !c.has_layout) {
+        ctx.label("abstract-only cell");
+    }
+    if m.cells.iter().any(|c| c.has_layout && c.shapes.is_empty() && c.insts.is_empty()) {
+        ctx.label("cell with an empty layout");
+    }
+    if m.cells.iter().any(|c| c.insts.iter().any(|i| i.loc == (0, 0))) {
+        ctx.label("instance at the origin");
+    }
+    if m.cells.iter().any(|c| !c.annotations.is_empty()) {
+        ctx.label("annotation");
+    }
+    ctx.label(&format!("{} layers", m.layers.len().min(5)));
+}
 pub fn units_of(u: u8) -> raw::Units {
     match u {
         0 => raw::Units::Micro,
